@@ -47,7 +47,8 @@ CONSTANTS H, W,          \* buffer / image grid
           SrcTiles,      \* the source images offered to Fill / Update
           PriorTiles,    \* contents of a buffer obtained by reading a tile (update_image: basis = read_image(...))
           ExploreFrom,   \* calls are explored from these contents only (Tiles: from everything reachable)
-          FancySel,      \* the pointwise (integer-array) indexers offered to Fill
+          FancySel,      \* the pointwise (integer-array) indexers offered to Fill and Update
+          ListSel,       \* the rectangles written with an integer list on one buffer axis offered to Fill and Update
           Formats,       \* storage formats explored by FileSpec
           FileTiles,     \* the tiles offered to Write
           PairModes,     \* modes explored by PairSpec
@@ -86,7 +87,7 @@ AxisIdx(n, forms) ==
 AxisPairs(n) == {bi \in AxisIdx(n, {"slice", "rev"}) \X AxisIdx(n, ImgForms) : Len(Expand(bi[1])) = Len(Expand(bi[2]))}
 
 \* A full indexer quadruple as handed to fill/update(buffer, iy_idx, ix_idx, by_idx, bx_idx):
-\* k = "rect" (four slices: the outer product of rows and columns) or "fancy" (four equally long integer
+\* k = "rect" (the outer product of rows and columns: four slices, or a list on one axis) or "fancy" (four equally long integer
 \* arrays addressing point k of the buffer from point k of the image; samplers.py plate_carree_planet).
 \* f records the written form of by, bx, iy, ix; the four fields are the index sequences they denote.
 RectOf(y, x) == [k |-> "rect", f |-> <<y[1].k, x[1].k, y[2].k, x[2].k>>,
@@ -102,6 +103,24 @@ IsFancy(A) == /\ A.k = "fancy" /\ A.f = LISTS
                                         /\ A.iy[j] \in 0..(H - 1) /\ A.ix[j] \in 0..(W - 1)
               /\ \A i, j \in DOMAIN A.by : i < j => Flat(A.by[i], A.bx[i]) < Flat(A.by[j], A.bx[j])
 
+\* A rectangle written with an integer list / array on ONE buffer axis and a slice on the other: numpy addresses the outer
+\* product of the list and the slice, exactly as with two slices (k = "rect") - but b[by_idx, bx_idx] is then a COPY of the
+\* buffer's pixels, not a view of them.  A list denotes any sequence of indices (unordered, with gaps; on the buffer side
+\* without repeats: no buffer pixel is addressed twice).  The image side is written with slices, or likewise with a list on
+\* one axis (then any image row / column may feed several buffer rows / columns).
+\* The harness enumerates / samples them; IsListRect is what TLC accepts.
+AxisSeqOK(form, s, n) == /\ \A j \in DOMAIN s : s[j] \in 0..(n - 1)
+                         /\ form = "slice" => \A j \in 1..(Len(s) - 1) : s[j + 1] = s[j] + 1
+                         /\ form = "rev" => Len(s) > 0 /\ \A j \in 1..(Len(s) - 1) : s[j + 1] = s[j] - 1
+IsListRect(A) == /\ A.k = "rect"
+                 /\ {A.f[1], A.f[2]} \in {{"list", "slice"}, {"list", "rev"}}          \* exactly one buffer axis is a list
+                 /\ A.f[3] \in ImgForms \cup {"list"} /\ A.f[4] \in ImgForms \cup {"list"} /\ {A.f[3], A.f[4]} # {"list"}
+                 /\ Len(A.by) = Len(A.iy) /\ Len(A.bx) = Len(A.ix)
+                 /\ AxisSeqOK(A.f[1], A.by, H) /\ AxisSeqOK(A.f[2], A.bx, W)
+                 /\ AxisSeqOK(A.f[3], A.iy, H) /\ AxisSeqOK(A.f[4], A.ix, W)
+                 /\ \A i, j \in DOMAIN A.by : i # j => A.by[i] # A.by[j]
+                 /\ \A i, j \in DOMAIN A.bx : i # j => A.bx[i] # A.bx[j]
+
 \* What numpy pairs up: element k of b[by, bx] with element k of i[iy, ix], as <<buffer position, image position>>
 Pairs(A) == TLCEval(IF A.k = "rect"
             THEN [k \in 1..(Len(A.by) * Len(A.bx)) |->
@@ -111,7 +130,9 @@ Pairs(A) == TLCEval(IF A.k = "rect"
             ELSE [k \in 1..Len(A.by) |-> <<Flat(A.by[k], A.bx[k]), Flat(A.iy[k], A.ix[k])>>])
 
 RectSeq == SetToSeq(Rects)
-IdxSeq == RectSeq \o SetToSeq(FancySel)          \* fill accepts all of them; update only the slices 1..NRect
+\* fill and update accept all of them ("slice or other indexer"): the slice rectangles 1..NRect, then the list
+\* rectangles, then the pointwise quadruples
+IdxSeq == RectSeq \o SetToSeq(ListSel) \o SetToSeq(FancySel)
 NRect == Len(RectSeq)
 PairsOf == TLCEval([j \in 1..Len(IdxSeq) |-> Pairs(IdxSeq[j])])
 AddrOf(pr) == {pr[k][1] : k \in DOMAIN pr}                                         \* the addressed buffer pixels
@@ -122,6 +143,7 @@ ImgOver == TLCEval([j \in 1..Len(IdxSeq) |-> TLCEval([p \in 1..N |-> IF p \in Ad
 
 \* structural theorems about the indexer families (checked by TLC when the module is loaded)
 ASSUME \A A \in FancySel : IsFancy(A)
+ASSUME \A A \in ListSel : IsListRect(A)
 ASSUME \A j \in 1..Len(IdxSeq) : LET A == IdxSeq[j] pr == PairsOf[j] IN
           /\ Len(A.by) = Len(A.iy) /\ Len(A.bx) = Len(A.ix)
           /\ \A k \in DOMAIN pr : pr[k][1] \in 1..N /\ pr[k][2] \in 1..N
@@ -142,7 +164,10 @@ ClearOp(c, b) == AllU                                           \* fill(0) resp.
 \* fill:  b.fill(0 | nan) ; b[by_idx, bx_idx] = i[iy_idx, ix_idx]   (RGB: into the colour channels, alpha := 255)
 FillOp(c, b, pr, s) == TLCEval([p \in 1..N |-> LET k == LastOver(pr, p) IN IF k = 0 THEN Undef ELSE s[pr[k][2]]])
 
-\* update: per pixel of the views sub_b = b[by_idx, bx_idx], sub_i = i[iy_idx, ix_idx] (slices: no pixel twice)
+\* update: per pixel of sub_b = b[by_idx, bx_idx], sub_i = i[iy_idx, ix_idx] (no indexer family addresses a buffer pixel
+\* twice: structural theorem above).  With slices sub_b is a view of the buffer; with a list / integer array on an axis
+\* numpy hands out a copy, and what that copy holds after the operation is what the buffer is to hold at
+\* [by_idx, bx_idx]: the sentences of C15 speak of the caller's buffer, however its rectangle is written.
 \*   RGB              sub_b[..., :3] = sub_i ; sub_b[..., 3] = 255
 \*   RGBA             np.putmask(sub_b, alpha(sub_i) != 0, sub_i)
 \*   F32 / F64        np.putmask(sub_b, ~isnan(sub_i), sub_i)
@@ -198,11 +223,10 @@ FileFrozen == fmt = "none" /\ OneFileFrozen /\ PairFrozen
 ClearCall == [op |-> "clear", ix |-> 0, src |-> 0]
 FillCall(j, k) == [op |-> "fill", ix |-> j, src |-> k]
 UpdateCall(j, k) == [op |-> "update", ix |-> j, src |-> k]
-\* update reads sub_b = b[by_idx, bx_idx] and writes through it: only basic (slice) indexing gives a view,
-\* so update is offered the slice indexers 1..NRect only (nothing in the code base passes it integer arrays)
+\* update is offered every indexer fill is offered (the docstrings of both say "slice or other indexer")
 ForEveryCall(c, P(_)) == /\ P(ClearCall)
                          /\ \A j \in 1..Len(IdxSeq), k \in 1..Len(SrcSeqOf[c]) : P(FillCall(j, k))
-                         /\ \A j \in 1..NRect, k \in 1..Len(SrcSeqOf[c]) : P(UpdateCall(j, k))
+                         /\ \A j \in 1..Len(IdxSeq), k \in 1..Len(SrcSeqOf[c]) : P(UpdateCall(j, k))
 Apply(c, b, cl) == CASE cl.op = "clear" -> ClearOp(c, b)
                      [] cl.op = "fill" -> FillOp(c, b, PairsOf[cl.ix], SrcSeqOf[c][cl.src])
                      [] cl.op = "update" -> UpdateOp(c, b, PairsOf[cl.ix], SrcSeqOf[c][cl.src])
@@ -210,7 +234,7 @@ BInit == cls \in Classes /\ buf = AllU /\ FileFrozen          \* make_maskable_b
 BNext == /\ \/ buf' \in PriorTiles                              \* a buffer read from a tile file takes its place
             \/ buf \in ExploreFrom /\ buf' = Apply(cls, buf, ClearCall)
             \/ buf \in ExploreFrom /\ \E j \in 1..Len(IdxSeq), k \in 1..Len(SrcSeqOf[cls]) : buf' = Apply(cls, buf, FillCall(j, k))
-            \/ buf \in ExploreFrom /\ \E j \in 1..NRect, k \in 1..Len(SrcSeqOf[cls]) : buf' = Apply(cls, buf, UpdateCall(j, k))
+            \/ buf \in ExploreFrom /\ \E j \in 1..Len(IdxSeq), k \in 1..Len(SrcSeqOf[cls]) : buf' = Apply(cls, buf, UpdateCall(j, k))
          /\ UNCHANGED cls /\ UNCHANGED fvars /\ UNCHANGED pvars
 BufSpec == BInit /\ [][BNext]_vars
 
